@@ -86,6 +86,7 @@ type Incarnation struct {
 	parkOp  string
 	staged  uint64 // volatile staged commit index
 	starting bool  // inside NewRaft
+	failedSince bool // a store error was injected since the last projection of the node
 }
 
 var errInjected = errors.New("sim: injected store error")
@@ -122,6 +123,7 @@ func (inc *Incarnation) mutGate(op string, failable bool) (bool, error) {
 		inc.failAt--
 		if inc.failAt == 0 {
 			inc.node.c.Tr.Emit("store", inc.node.ID, M{"op": op, "err": "injected"})
+			inc.failedSince = true
 			return true, errInjected
 		}
 	}
